@@ -4,11 +4,81 @@ import functools
 import math
 import struct
 from decimal import Decimal
+from fractions import Fraction
 
 from claripy.errors import ClaripyOperationError
 from claripy.fp import FSORT_DOUBLE, FSORT_FLOAT, RM, FSort
 
 from .bv import BVV, Concat
+
+
+_FORMAT_PARAMS = {FSORT_FLOAT: (24, -126, 127), FSORT_DOUBLE: (53, -1022, 1023)}
+
+
+def _round_fraction(q, sort, rm):
+    """
+    Round the exact rational number `q` to a value of floating point sort `sort` under rounding mode `rm`.
+    Zero is returned as +0.0 for q == 0; a negative `q` that underflows gives -0.0.
+    """
+    if q == 0:
+        return 0.0
+    precision, emin, emax = _FORMAT_PARAMS[sort]
+    neg = q < 0
+    a = -q if neg else q
+    e = a.numerator.bit_length() - a.denominator.bit_length()
+    if a < Fraction(2) ** e:
+        e -= 1
+    ulp = Fraction(2) ** (max(e, emin) - (precision - 1))
+    n, rem = divmod(a, ulp)
+    half = ulp / 2
+    if rm == RM.RM_NearestTiesEven:
+        up = rem > half or (rem == half and n & 1 == 1)
+    elif rm == RM.RM_NearestTiesAwayFromZero:
+        up = rem >= half
+    elif rm == RM.RM_TowardsZero:
+        up = False
+    elif rm == RM.RM_TowardsPositiveInf:
+        up = rem > 0 and not neg
+    elif rm == RM.RM_TowardsNegativeInf:
+        up = rem > 0 and neg
+    else:
+        raise ClaripyOperationError(f"unrecognized rounding mode {rm}")
+    if up:
+        n += 1
+    val = n * ulp
+    max_finite = (2 - Fraction(2) ** (1 - precision)) * Fraction(2) ** emax
+    if val > max_finite:
+        to_inf = (
+            rm in (RM.RM_NearestTiesEven, RM.RM_NearestTiesAwayFromZero)
+            or (rm == RM.RM_TowardsPositiveInf and not neg)
+            or (rm == RM.RM_TowardsNegativeInf and neg)
+        )
+        r = float("inf") if to_inf else float(max_finite)
+    else:
+        r = float(val)
+    return -r if neg else r
+
+
+def _round_arith(rm, a, b, exact_op, float_op):
+    """
+    Apply a binary arithmetic operation to two finite FPVs exactly and round once, honoring `rm`.
+    Non-finite operands (and results that are exactly zero) do not depend on the rounding mode except for the sign of
+    an exact zero sum, which is negative under round-towards-negative.
+    """
+    x, y = a.value, b.value
+    if not (math.isfinite(x) and math.isfinite(y)):
+        return FPV(float_op(x, y), a.sort)
+    q = exact_op(Fraction(x), Fraction(y))
+    if q == 0:
+        return FPV(float_op(x, y), a.sort)
+    return FPV(_round_fraction(q, a.sort, rm), a.sort)
+
+
+def _exact_zero_sum_sign(rm, r, x, y):
+    # an exactly-zero sum of operands with opposite signs is -0 under round-towards-negative
+    if r == 0 and rm == RM.RM_TowardsNegativeInf and not (math.copysign(1, x) > 0 and math.copysign(1, y) > 0):
+        return -0.0
+    return r
 
 
 def compare_sorts(f):
@@ -65,10 +135,21 @@ class FPV:
     def __neg__(self):
         return FPV(-self.value, self.sort)
 
-    def fpSqrt(self):
+    def fpSqrt(self, rm=RM.RM_NearestTiesEven):
         if self.value < 0:
             return FPV(float("nan"), self.sort)
-        return FPV(math.sqrt(self.value), self.sort)
+        if self.value == 0 or not math.isfinite(self.value):
+            return FPV(math.sqrt(self.value), self.sort)
+        # sqrt(num / 2**t) == sqrt(num * 2**(2*s - t)) / 2**s: take an exact integer square root with more bits than
+        # the format holds, and mark an inexact root with a sticky half unit so that it rounds like the true value
+        q = Fraction(self.value)
+        t = q.denominator.bit_length() - 1  # the denominator of a float is a power of two
+        wanted_bits = 2 * _FORMAT_PARAMS[self.sort][0] + 8
+        s = max((t + 1) // 2, (wanted_bits - q.numerator.bit_length() + t + 1) // 2)
+        n = q.numerator << (2 * s - t)
+        root = math.isqrt(n)
+        approx = Fraction(2 * root + (0 if root * root == n else 1), 2 ** (s + 1))
+        return FPV(_round_fraction(approx, self.sort, rm), self.sort)
 
     @normalize_types
     @compare_sorts
@@ -212,19 +293,21 @@ def fpToFP(a1, a2, a3=None):
 
         return FPV(unpacked, sort)
     if isinstance(a1, RM) and isinstance(a2, FPV) and isinstance(a3, FSort):
-        return FPV(a2.value, a3)
+        if not math.isfinite(a2.value) or a2.value == 0:
+            return FPV(a2.value, a3)
+        return FPV(_round_fraction(Fraction(a2.value), a3, a1), a3)
     if isinstance(a1, RM) and isinstance(a2, BVV) and isinstance(a3, FSort):
-        return FPV(float(a2.signed), a3)
+        return FPV(_round_fraction(Fraction(a2.signed), a3, a1), a3)
     raise ClaripyOperationError("unknown types passed to fpToFP")
 
 
-def fpToFPUnsigned(_rm, thing, sort):
+def fpToFPUnsigned(rm, thing, sort):
     """
     Returns a FP AST whose value is the same as the unsigned BVV `thing` and
     whose sort is `sort`.
     """
     # thing is a BVV
-    return FPV(float(thing.value), sort)
+    return FPV(_round_fraction(Fraction(thing.value), sort, rm), sort)
 
 
 def fpToIEEEBV(fpv):
@@ -372,32 +455,36 @@ def fpNeg(x):
     return -x
 
 
-def fpSub(_rm, a, b):
+def fpSub(rm, a, b):
     """
     Returns the subtraction of the floating point `a` by the floating point `b`.
     """
-    return a - b
+    r = _round_arith(rm, a, b, lambda x, y: x - y, lambda x, y: x - y)
+    return FPV(_exact_zero_sum_sign(rm, r.value, a.value, -b.value), r.sort)
 
 
-def fpAdd(_rm, a, b):
+def fpAdd(rm, a, b):
     """
     Returns the addition of two floating point numbers, `a` and `b`.
     """
-    return a + b
+    r = _round_arith(rm, a, b, lambda x, y: x + y, lambda x, y: x + y)
+    return FPV(_exact_zero_sum_sign(rm, r.value, a.value, b.value), r.sort)
 
 
-def fpMul(_rm, a, b):
+def fpMul(rm, a, b):
     """
     Returns the multiplication of two floating point numbers, `a` and `b`.
     """
-    return a * b
+    return _round_arith(rm, a, b, lambda x, y: x * y, lambda x, y: x * y)
 
 
-def fpDiv(_rm, a, b):
+def fpDiv(rm, a, b):
     """
     Returns the division of the floating point `a` by the floating point `b`.
     """
-    return a / b
+    if b.value == 0 or not math.isfinite(a.value) or not math.isfinite(b.value):
+        return a / b
+    return _round_arith(rm, a, b, lambda x, y: x / y, lambda x, y: x / y)
 
 
 def fpIsNaN(x):
